@@ -73,6 +73,15 @@ def run(ctx):
                         ctx.finding({"func": name, "kind": "value", "dtype": d, "ndim": len(sh), "size": ops.prod(sh)},
                                     f"{name}(x) for {d} array of shape {sh}: ndonnx {row['ndx'][name]}, NumPy {row['np'][name]}",
                                     {"protocol": name, "array": spec["tensor"], "ndonnx": row["ndx"][name], "numpy": row["np"][name]})
+                air = row.get("after_inplace_reshape")
+                if air and "error" not in air:
+                    if not same(air["np_len"], air["ndx_len"]):
+                        ctx.finding({"func": "len", "kind": "after-inplace-reshape", "dtype": d}, f"len(x) after ndx.reshape(x, [1, -1], copy=False) on {d}{sh}: ndonnx {air['ndx_len']}, NumPy {air['np_len']}",
+                                    {"array": spec["tensor"], "history": "len(x); ndx.reshape(x, [1, -1], copy=False); len(x)", "outcome": air})
+                    elif "val" in air["np_iter"] and ("val" not in air["ndx_iter"] or len(air["ndx_iter"]["val"]) != len(air["np_iter"]["val"])
+                                                      or ("utf8" not in d and air["ndx_iter"]["val"] != air["np_iter"]["val"])):   # string blocks: onnxruntime's Gather (C08-string-gather)
+                        ctx.finding({"func": "iter", "kind": "after-inplace-reshape", "dtype": d}, f"iteration after an in-place reshape of {d}{sh}: ndonnx {str(air['ndx_iter'])[:100]}, NumPy {str(air['np_iter'])[:100]}",
+                                    {"array": spec["tensor"], "history": "len(x); ndx.reshape(x, [1, -1], copy=False); iter(x)", "outcome": air})
                 ni, xi = row["np"]["iter"], row["ndx"]["iter"]
                 if "val" in xi:
                     items = row.get("items")
